@@ -98,7 +98,7 @@ def cases(tier, seed):
         A = chgen.sort_shape(rng.sample([mm for mm in mons if mm], rng.randint(1, 3)))
         B = chgen.sort_shape(rng.sample(mons, rng.randint(1, 3)))
         out.append(dict(kind='fork-poly', op=rng.choice(['+', '-', '*', '*']), A=[list(x) for x in A], B=[list(x) for x in B], fork=True,
-                        accumulate=rng.choice(['int0', 'float0', 'args0'])))
+                        accumulate=rng.choice(['int0', 'float0', 'args0', 'ctor0', 'ctor0'])))
     # variable names whose concatenations are ambiguous (a*a*bb vs a*ab*b vs aab*b): whatever identifies a monomial must
     # be the TUPLE of names
     amb = [('a',), ('ab',), ('b',), ('bb',), ('aab',), ('a', 'ab'), ('a', 'bb'), ('ab', 'b'), ('a', 'a'), ('aab', 'b'), ('a', 'a', 'bb'), ('a', 'ab', 'b')]
@@ -292,9 +292,9 @@ def run_case(desc, V):
                 claims.append(Fail(tag, detail, fkey=fkey))
         X, Y = sympy.Symbol('x'), sympy.Symbol('y')
         # (a) exact zero tests, both directions
-        iszero('(P(0)+x)*y - x*y', lambda: (Polynomial(0) + x) * y - x * y, 'edge|zero-not-recognised')
-        iszero('(P(0)+x)*(y+z) - x*(y+z)', lambda: (Polynomial(0) + x) * (y + z) - x * (y + z), 'edge|zero-not-recognised')
-        iszero('P([[1,y],[1,x]]) - (x+y)', lambda: Polynomial([[1, 'y'], [1, 'x']]) - (x + y), 'edge|zero-not-recognised')
+        iszero('(P(0)+x)*y - x*y', lambda: (Polynomial(0) + x) * y - x * y, 'edge|zero-not-recognised|accumulated')
+        iszero('(P(0)+x)*(y+z) - x*(y+z)', lambda: (Polynomial(0) + x) * (y + z) - x * (y + z), 'edge|zero-not-recognised|accumulated')
+        iszero('P([[1,y],[1,x]]) - (x+y)', lambda: Polynomial([[1, 'y'], [1, 'x']]) - (x + y), 'edge|zero-not-recognised|unsorted-constructor')
         # (b) a number combined with a zero rational polynomial
         same('(rx*ry - ry*rx) + 5', lambda: (rx * ry - ry * rx) + 5, sympy.Integer(5), 'edge|number-plus-zero-rational')
         same('7 - (rx - rx)', lambda: 7 - (rx - rx), sympy.Integer(7), 'edge|number-plus-zero-rational')
@@ -334,9 +334,13 @@ def run_case(desc, V):
         extra_claims = []
         if desc.get('accumulate'):
             terms = [Polynomial([list(mono)]) for mono in A.args]
-            acc = {'int0': lambda: Polynomial(0), 'float0': lambda: Polynomial(0.0), 'args0': lambda: Polynomial([[0]])}[desc['accumulate']]()
-            for t in terms:
-                acc = acc + t
+            if desc['accumulate'] == 'ctor0':
+                # the same polynomial handed to the list constructor with an explicit zero constant in front
+                acc = Polynomial([[0]] + [list(mono) for mono in A.args])
+            else:
+                acc = {'int0': lambda: Polynomial(0), 'float0': lambda: Polynomial(0.0), 'args0': lambda: Polynomial([[0]])}[desc['accumulate']]()
+                for t in terms:
+                    acc = acc + t
             want_A = _pd(A)
             extra_claims += _dclaims('accumulated', _pd(acc), want_A)
             if acc == 0:
